@@ -103,7 +103,7 @@ func s1Shape14(c *vcore.Ctx) *s1Shape {
 	return sh
 }
 
-var c11S1, c12S1 *vcore.Prop
+var c10S1, c11S1, c12S1 *vcore.Prop
 
 func init() {
 	c11S1 = (&vcore.Prop{
@@ -136,7 +136,7 @@ func init() {
 		Init:        s1Init, StallLimit: 20 * time.Second, OnStall: s1Stall("C14"),
 		Run: func(c *vcore.Ctx) *vcore.Violation { return s1RunHistory(c, s1Shape14(c)) },
 	})
-	register(&vcore.Prop{
+	c10S1 = (&vcore.Prop{
 		ID: "C10", Level: "exploration", Worlds: "S1",
 		Rule:       "one run = one generated history of 1..10 environment operations (+ Ping and a successful Execve as epilogue) with a per-Execve failure stage, executed against both RPC endpoints in one synctest bubble; after every quiescence the simulator picks the next event (deliver head of either queue, child exit, cancel, transport close, clock tick). distinct = hash of the ordered event-kind sequence; non-trivial = at least one fault fired or one non-FIFO scheduling decision was taken",
 		Components: s1Components,
